@@ -47,6 +47,10 @@ Proof.
     rewrite byte_lt_128. destruct (x <? 128)%N; [reflexivity|]. apply IH.
 Qed.
 
+(* the recursive call of a translated loop: the new capacity, however it is written (cap * 2, 2 * cap, cap + cap) *)
+Ltac recur IH cap :=
+  cbv zeta; match goal with |- ?f _ _ _ ?c = _ => replace c with (cap * 2) by lia end; apply IH; lia.
+
 (* ---------- _decode_dl: while True ---------- *)
 Lemma src_decode_dl_loop_eq : forall ops input fuel cap grows, 0 <= cap ->
   src_iconv_decode_dl_loop ops fuel input cap = of_dec (snd (dec_loop ops input fuel cap grows)).
@@ -62,11 +66,11 @@ Proof.
     + destruct (fr_rc (io_flush ops cap)) eqn:Ef; cbn [rc_ok negb rc_eqb orb snd].
       * destruct (cr_inleft (io_conv ops cap) =? 0); cbn [negb snd]; [|reflexivity].
         destruct ((cap - fr_outleft (io_flush ops cap)) mod 4 =? 0); reflexivity.
-      * apply IH. lia.
+      * recur IH cap.
       * rewrite src_decode_dl_for_eq. reflexivity.
       * rewrite src_decode_dl_for_eq. reflexivity.
       * reflexivity.
-    + apply IH. lia.
+    + recur IH cap.
     + rewrite src_decode_dl_for_eq. reflexivity.
     + rewrite src_decode_dl_for_eq. reflexivity.
     + reflexivity.
@@ -107,8 +111,8 @@ Proof.
     destruct (cr_rc (io_conv ops cap)) eqn:Ec; cbn [rc_ok negb rc_eqb orb snd].
     + destruct (fr_rc (io_flush ops cap)) eqn:Ef; cbn [rc_ok negb rc_eqb orb snd]; try reflexivity.
       * destruct (cr_inleft (io_conv ops cap) =? 0); reflexivity.
-      * apply IH. lia.
-    + apply IH. lia.
+      * recur IH cap.
+    + recur IH cap.
     + reflexivity.
     + reflexivity.
     + reflexivity.
